@@ -9,6 +9,8 @@ import (
 	"net/netip"
 
 	"github.com/IrineSistiana/mosproxy/internal/dnsmsg"
+	domainmatcher "github.com/IrineSistiana/mosproxy/internal/domain_matcher"
+	"github.com/IrineSistiana/mosproxy/internal/mlog"
 	"github.com/IrineSistiana/mosproxy/internal/pool"
 )
 
@@ -142,4 +144,14 @@ func VerifResourceLimiter(cfg LimiterConfig) (func(netip.Addr, int) string, func
 			return "client"
 		}
 	}, func() { l.Close() }
+}
+
+// VerifLoadDomainSet loads the files of one domain set the way the router does at start-up and returns the
+// set's matcher.
+func VerifLoadDomainSet(files []string) (interface{ Match([]byte) bool }, error) {
+	r := &router{logger: mlog.Nop(), domainSets: make(map[string]*domainmatcher.MixMatcher)}
+	if err := r.loadDomainSet(&DomainSetConfig{Tag: "s", Files: files}); err != nil {
+		return nil, err
+	}
+	return r.domainSets["s"], nil
 }
